@@ -1,6 +1,6 @@
 """Registry: property id -> level, rules, explanation.  MANIFEST.json is generated from it
 (checks/gen_manifest.py) so that the two cannot drift."""
-from .rules import py, c04, c06, c07, v3, c18, numrules, codec, crypto, pol  # noqa: F401
+from .rules import py, c04, c06, c07, v3, c18, numrules, codec, crypto, pol, bits  # noqa: F401
 
 TRUSTED = [
     "rustc nightly 1.97 MIR construction (dev profile, -Zmir-opt-level=0) as a faithful account of the program",
@@ -50,7 +50,7 @@ prop("C19", "other",
      "imply the rate bound by induction over histories. Floor division by the interval is modelled by its defining "
      "inequalities; an expression outside the linear fragment makes that rule inconclusive, never a violation. "
      "Assumes the sleep releases exactly at ts + delay.",
-     [("C19.guard", py.policer_guard), ("C19.core", py.policer_core), ("C19.slots", pol.invariant)])
+     [("C19.guard", py.policer_guard), ("C19.core", py.policer_core), ("C19.slots", pol.invariant), ("C19.noblock", py.async_never_blocks), ("C19.interval", pol.interval)])
 
 from .rules import c04  # noqa: E402
 
@@ -64,7 +64,7 @@ prop("C04", "other",
      "(the 2^-31 id collision is outside any technique)."
      " Added in round 5: nothing after the Ok edge of recv() ends in Err (every received datagram reaches the decoder); the decode-error rows of the exception table.",
      [("C04.accept", c04.accept), ("C04.check", c04.pdu_check), ("C04.skip", c04.skip_loop),
-      ("C04.single", c04.single_id), ("C04.report", c04.report_only_v3), ("C04.version", c04.version_check), ("C04.adopt", only(v3.adopt, "only-when")), ("C04.retry", only(py.timeouts, "async_client._recv")), ("C04.exc", only(c07.exc_table, "InvalidVersion", "TrailingData", "InvalidPdu", "InvalidTagFormat", "UnexpectedTag", "Incomplete")), ("C04.recv", only(c18.arm, "received-is-delivered"))])
+      ("C04.single", c04.single_id), ("C04.report", c04.report_only_v3), ("C04.version", c04.version_check), ("C04.adopt", only(v3.adopt, "only-when")), ("C04.retry", only(py.timeouts, "async_client._recv")), ("C04.exc", only(c07.exc_table, "InvalidVersion", "TrailingData", "InvalidPdu", "InvalidTagFormat", "UnexpectedTag", "Incomplete")), ("C04.recv", only(c18.arm, "received-is-delivered")), ("C04.map", py.blocking_wrapped), ("C04.trailing", codec.trailing), ("C04.usmraw", crypto.usm_fields_raw)])
 
 # properties not claimed (with the reason); kept current by hand
 NOT_APPLICABLE = {}
@@ -79,7 +79,7 @@ prop("C07", "other",
      "socket call of the sync client maps BlockingIOError to TimeoutError. Every cell of the tables is decided; what is "
      "not decided is the identity of the Python objects pyo3 builds from the decoded values (see C02)."
      " Added in round 5: a data value is stored on every way through the get_many loop body (no way round set_item); relative-OID base is the preceding varbind.",
-     [("C07.get", c07.get_table), ("C07.many", c07.many_table), ("C07.exc", c07.exc_table), ("C07.py", py.blocking_wrapped), ("C07.report", only(c04.pdu_check, "Report")), ("C07.sib", only(crypto.sockets_sibling, pred=lambda k: k.endswith(_GETS))), ("C07.reject", c04.only_listed_rejections), ("C07.pass", only(py.passthrough, "result passed through")), ("C07.async", only(py.timeouts, "only-BlockingIOError-retried")), ("C07.relbase", c07.relative_base)])
+     [("C07.get", c07.get_table), ("C07.many", c07.many_table), ("C07.exc", c07.exc_table), ("C07.py", py.blocking_wrapped), ("C07.report", only(c04.pdu_check, "Report")), ("C07.sib", only(crypto.sockets_sibling, pred=lambda k: k.endswith(_GETS))), ("C07.reject", c04.only_listed_rejections), ("C07.pass", only(py.passthrough, "result passed through")), ("C07.async", only(py.timeouts, "only-BlockingIOError-retried")), ("C07.relbase", c07.relative_base), ("C07.skip", c04.skip_loop), ("C07.errprop", py.errors_propagate)])
 
 from .rules import c06  # noqa: E402
 
@@ -106,7 +106,7 @@ prop("C05", "other",
      " Added in round 5: zero-copy decoders total (an added OID validation ends a walk), literal INTEGER range of the GETBULK counters, session defaults set once.",
      [("C05.contain", c06.contain), ("C05.mono", c06.mono), ("C05.cont", c06.cont), ("C05.step", c06.stop_tables),
       ("C05.pybuf", py.bulk_buffer), ("C05.pystop", py.stop_mapping), ("C05.async", py.async_pairs), ("C05.fetch", py.fetch), ("C05.store", numrules.oid_store), ("C05.oidenc", codec.oid_text), ("C05.oidtext", codec.oid_print), ("C05.reject", c06.next_oid_rejections), ("C05.iter", only(py.passthrough, "iter__")),
-      ("C05.sib", only(crypto.sockets_sibling, *_WALKS)), ("C05.total", codec.zero_copy_total), ("C05.defaults", py.session_defaults), ("C05.intlit", crypto.literal_int_tlv)])
+      ("C05.sib", only(crypto.sockets_sibling, *_WALKS)), ("C05.total", codec.zero_copy_total), ("C05.defaults", py.session_defaults), ("C05.intlit", crypto.literal_int_tlv), ("C05.hdr", codec.hdr_reject), ("C05.buf", only(numrules.c17_sites, "buf::buffer::Buffer::")), ("C05.bits", bits.compose)])
 
 from .rules import v3, c18  # noqa: E402
 
@@ -118,7 +118,7 @@ prop("C13", "other",
      "digest and the session engine id; OpRefresh is an empty GetRequest and flag_report is set exactly for it; both Python "
      "clients defer the user iff no engine id, run refresh -> set_keys(deferred user) -> clear -> refresh and call refresh() "
      "on context entry. Behaviour over multi-step agent histories beyond these premises is NOT decided.",
-     [("C13.adopt", v3.adopt), ("C13.stamp", v3.cred), ("C13.keys", v3.keys), ("C13.probe", v3.probe), ("C13.py", py.refresh_flow), ("C13.user", only(crypto.key_ffi, "User."))])
+     [("C13.adopt", v3.adopt), ("C13.stamp", v3.cred), ("C13.keys", v3.keys), ("C13.probe", v3.probe), ("C13.py", py.refresh_flow), ("C13.user", only(crypto.key_ffi, "User.")), ("C13.accept", c04.accept), ("C13.enccast", codec.encoder_casts), ("C13.errprop", py.errors_propagate)])
 
 prop("C10", "other",
      "Path rules on v3 unwrap_pdu/_recv_inner: delivery of a PDU must be guarded by a test of msg.usm.auth_params against "
@@ -127,7 +127,7 @@ prop("C10", "other",
      "(C10.dec). The first three mechanisms are absent from the code: they are recorded as known findings (a repair needs "
      "the raw datagram in unwrap_pdu and changes the SnmpSocket trait). MAC byte equality itself is not decided."
      " Added in round 5: NoPriv::decrypt has no Ok exit; engine id / boots / time are adopted only from a message that passed the header check.",
-     [("C10", v3.c10), ("C10.accept", c04.accept), ("C10.check", c04.pdu_check), ("C10.version", c04.version_check), ("C10.py", py.refresh_flow), ("C10.keys", only(v3.keys, "always localised", "every Ok installs", "store is final", "separate digest")), ("C10.adopt", v3.adopt), ("C10.nopriv", crypto.nopriv_refuses)])
+     [("C10", v3.c10), ("C10.accept", c04.accept), ("C10.check", c04.pdu_check), ("C10.version", c04.version_check), ("C10.py", py.refresh_flow), ("C10.keys", only(v3.keys, "always localised", "every Ok installs", "store is final", "separate digest")), ("C10.adopt", v3.adopt), ("C10.nopriv", crypto.nopriv_refuses), ("C10.dispatch", crypto.key_dispatch), ("C10.usmraw", crypto.usm_fields_raw), ("C10.flags", crypto.msg_flags_decode)])
 
 prop("C18", "other",
      "Mechanism premises only (wall-clock behaviour is NOT decided): get_socket arms SO_RCVTIMEO with "
@@ -137,7 +137,7 @@ prop("C18", "other",
      "wait_for(self._timeout) and remaps the asyncio timeout; sync passes int(timeout*NS), async 0. The skip loop of "
      "_recv_inner tests no deadline (C18.deadline): recorded as a known finding."
      " Added in round 5: every received datagram reaches the decoder; _recv_inner is called only inside a closure handed to Python::allow_threads; session engine parameters are adopted only after the header check.",
-     [("C18.arm", c18.arm), ("C18.deadline", c18.deadline), ("C18.map", py.blocking_wrapped), ("C18.py", py.timeouts), ("C18.recv-once", c18.recv_loops), ("C18.skip", c04.skip_loop), ("C18.exc", only(c07.exc_table, "WouldBlock", "ConnectionRefused", "SocketError")), ("C18.adopt", only(v3.adopt, "only-when", "-source")), ("C18.gil", c18.gil_released)])
+     [("C18.arm", c18.arm), ("C18.deadline", c18.deadline), ("C18.map", py.blocking_wrapped), ("C18.py", py.timeouts), ("C18.recv-once", c18.recv_loops), ("C18.skip", c04.skip_loop), ("C18.exc", only(c07.exc_table, "WouldBlock", "ConnectionRefused", "SocketError")), ("C18.adopt", only(v3.adopt, "only-when", "-source")), ("C18.gil", c18.gil_released), ("C18.reject", c04.only_listed_rejections), ("C18.core", only(py.policer_core, "BasePolicer.wait")), ("C18.pool", only(crypto.fresh_buffers, "drop", "pool", "BufferHandle")), ("C18.noblock", py.async_never_blocks), ("C18.errprop", py.errors_propagate)])
 
 from .rules import numrules  # noqa: E402
 
@@ -192,7 +192,7 @@ prop("C16", "proof",
      "return Ok only across the empty-remainder edge of their enclosing SEQUENCE."
      " Added in rounds 4-5: BerHeader.length / .tag never depend on len(input); a function that parses a header itself never hands the uncut remainder to a nested parser; decrypt reserves exactly data.len() octets.",
      [("C16.extent", codec.extent), ("C16.hdr", codec.hdr_contract), ("C16.rest", codec.rest), ("C16.pair", codec.pair),
-      ("C16.trailing", codec.trailing), ("C16.lists", codec.list_loops), ("C16.fresh", crypto.priv_fresh), ("C16.hdrext", codec.hdr_extent), ("C16.decrypt", only(crypto.priv_layout, "decrypt")), ("C16.children", codec.bounded_children), ("C01.children", codec.bounded_children)])
+      ("C16.trailing", codec.trailing), ("C16.lists", codec.list_loops), ("C16.fresh", crypto.priv_fresh), ("C16.hdrext", codec.hdr_extent), ("C16.decrypt", only(crypto.priv_layout, "decrypt")), ("C16.children", codec.bounded_children), ("C01.children", codec.bounded_children), ("C16.recv", only(numrules.c17_sites, "recv_socket", "as_slice"))])
 
 prop("C02", "other",
      "Necessary conditions only (numerical equality of decoded values with their X.690 denotation is NOT decided): the "
@@ -203,7 +203,7 @@ prop("C02", "other",
      "IpAddress octet order; no overflow site in the decoders (shared with C01)."
      " Added in rounds 4-5: the zero-copy decoders (OID, RELATIVE-OID, OCTET STRING, Opaque, ObjectDescriptor, SEQUENCE, [n]) have no error exit; in each numeric decoder some read reaches h.length (cover observation of num); an overflow guard before `T << k` refuses only values that overflow; a RELATIVE-OID name is resolved against the preceding varbind.",
      [("C02.dispatch", codec.dispatch), ("C02.pair", codec.pair), ("C02.extent", codec.extent), ("C02.width", codec.width), ("C02.hdr", codec.hdr_reject), ("C02.oidtext", codec.oid_print), ("C02.decrypt", only(crypto.priv_layout, "decrypt")), ("C02.textreject", codec.oid_to_text_rejections),
-      ("C02.fold", codec.fold), ("C02.ip", codec.ipaddr), ("C02.sites", codec.hdr_contract), ("C02.shiftguard", codec.shift_guards), ("C02.tail", codec.tail_cover), ("C02.total", codec.zero_copy_total), ("C02.relbase", c07.relative_base), ("C02.capacity", codec.capacity_exits)])
+      ("C02.fold", codec.fold), ("C02.ip", codec.ipaddr), ("C02.sites", codec.hdr_contract), ("C02.shiftguard", codec.shift_guards), ("C02.tail", codec.tail_cover), ("C02.total", codec.zero_copy_total), ("C02.relbase", c07.relative_base), ("C02.capacity", codec.capacity_exits), ("C02.lenonly", codec.length_only_rejections), ("C02.bits", bits.compose), ("C02.realforms", codec.real_forms)])
 
 prop("C08", "other",
      "Structure and intervals of SnmpOid::try_from(&str): no value-altering call (min/max/clamp/saturating/wrapping/unwrap_or) "
@@ -212,7 +212,7 @@ prop("C08", "other",
      "arcs mandatory; every panic site of both conversions discharged; OID text enters only through this conversion and a "
      "failure returns before the send. NOT decided: print(parse(s)) = s and the base-128 arithmetic of rewritten encoders."
      " Added in rounds 4-5: overflow guards exact; the OID decoder is total.",
-     [("C08.text", codec.oid_text), ("C08.entry", codec.oid_entry), ("C08.sites", numrules.c08_sites), ("C08.print", codec.oid_print), ("C08.reject", codec.oid_text_rejections), ("C08.arcloop", codec.arc_loop_exits), ("C08.textreject", codec.oid_to_text_rejections), ("C08.handlen", crypto.hand_lengths), ("C08.shiftguard", codec.shift_guards), ("C08.total", codec.zero_copy_total), ("C08.capacity", codec.capacity_exits)])
+     [("C08.text", codec.oid_text), ("C08.entry", codec.oid_entry), ("C08.sites", numrules.c08_sites), ("C08.print", codec.oid_print), ("C08.reject", codec.oid_text_rejections), ("C08.arcloop", codec.arc_loop_exits), ("C08.textreject", codec.oid_to_text_rejections), ("C08.handlen", crypto.hand_lengths), ("C08.shiftguard", codec.shift_guards), ("C08.total", codec.zero_copy_total), ("C08.capacity", codec.capacity_exits), ("C08.nested", crypto.nested_lengths), ("C08.bits", bits.compose)])
 
 prop("C15", "other",
      "Necessary conditions only (round-trip equality over all i64 / OIDs is NOT decided): no undischarged overflow, negation or "
@@ -220,7 +220,7 @@ prop("C15", "other",
      "push_tag_len (short / 0x81 / 0x82 with the octets in order and ensure_size covering them); the fixed encodings (ZERO_BER, "
      "NULL_BER, EMPTY_BER, version constants) are minimal TLVs; PDU tag tables of encoder and decoder agree with RFC 3416."
      " Added in rounds 4-5: decoded flag_* are bits 0/1/2 of the octet for all 256 values (mirror of the encoder's table); ensure_size refuses only what does not fit; push_tagged / push_tag_len write a header of at least two octets on success, also for empty contents; literal one-octet INTEGER range.",
-     [("C15.nowrap", numrules.c15_nowrap), ("C15.len", codec.length_forms), ("C15.hdr", codec.hdr_reject), ("C15.pdu", codec.pdu_tags), ("C15.oid", codec.oid_text), ("C15.nested", crypto.nested_lengths), ("C15.mirror", crypto.layout_mirror), ("C15.dec", only(codec.width, "SnmpInt")), ("C15.handlen", crypto.hand_lengths), ("C15.flags", crypto.msg_flags_decode), ("C15.msgflags", crypto.msg_flags), ("C15.tail", codec.tail_cover), ("C15.shiftguard", codec.shift_guards), ("C15.ensure", only(numrules.c17_sites, "ensure_size", "push_tag_len", "push_tagged")), ("C15.intlit", crypto.literal_int_tlv), ("C15.capacity", codec.capacity_exits)])
+     [("C15.nowrap", numrules.c15_nowrap), ("C15.len", codec.length_forms), ("C15.hdr", codec.hdr_reject), ("C15.pdu", codec.pdu_tags), ("C15.oid", codec.oid_text), ("C15.nested", crypto.nested_lengths), ("C15.mirror", crypto.layout_mirror), ("C15.dec", only(codec.width, "SnmpInt")), ("C15.handlen", crypto.hand_lengths), ("C15.flags", crypto.msg_flags_decode), ("C15.msgflags", crypto.msg_flags), ("C15.tail", codec.tail_cover), ("C15.shiftguard", codec.shift_guards), ("C15.ensure", only(numrules.c17_sites, "ensure_size", "push_tag_len", "push_tagged")), ("C15.intlit", crypto.literal_int_tlv), ("C15.capacity", codec.capacity_exits), ("C15.op", crypto.op_tables), ("C15.oidtext", codec.oid_print), ("C15.enccast", codec.encoder_casts), ("C15.bits", bits.compose)])
 
 from .rules import crypto  # noqa: E402
 
@@ -275,7 +275,7 @@ prop("C03", "other",
      " Added in round 5: a literal one-octet INTEGER `[02, 01, x as u8]` is reached only with x in 0..=127; OutOfBuffer is constructed by the buffer only; the per-session defaults (max_repetitions, allow_bulk, timeout) are stored in the constructor only.",
      [("C03.fresh", crypto.fresh_buffers), ("C03.priv-fresh", crypto.priv_fresh), ("C03.op", crypto.op_tables), ("C03.pdu", codec.pdu_tags),
       ("C03.cred", v3.cred), ("C03.priv", v3.priv_choice), ("C03.reqid", c04.single_id), ("C03.len", codec.length_forms), ("C03.sib", crypto.sockets_sibling),
-      ("C03.keys", v3.keys), ("C03.fetch", py.fetch), ("C03.version", py_version_default), ("C03.nested", crypto.nested_lengths), ("C03.mirror", crypto.layout_mirror), ("C03.nopanic", numrules.c03_nopanic), ("C03.adopt", only(v3.adopt, "on-every-accept", "-source", "learnt-on-accept")), ("C03.msgflags", crypto.msg_flags), ("C03.oidenc", codec.oid_text), ("C03.handlen", crypto.hand_lengths), ("C03.py", py.refresh_flow), ("C03.privlayout", crypto.priv_layout), ("C03.oob", crypto.out_of_buffer_owner), ("C03.defaults", py.session_defaults), ("C03.intlit", crypto.literal_int_tlv)])
+      ("C03.keys", v3.keys), ("C03.fetch", py.fetch), ("C03.version", py_version_default), ("C03.nested", crypto.nested_lengths), ("C03.mirror", crypto.layout_mirror), ("C03.nopanic", numrules.c03_nopanic), ("C03.adopt", only(v3.adopt, "on-every-accept", "-source", "learnt-on-accept")), ("C03.msgflags", crypto.msg_flags), ("C03.oidenc", codec.oid_text), ("C03.handlen", crypto.hand_lengths), ("C03.py", py.refresh_flow), ("C03.privlayout", crypto.priv_layout), ("C03.oob", crypto.out_of_buffer_owner), ("C03.defaults", py.session_defaults), ("C03.intlit", crypto.literal_int_tlv), ("C03.chain", crypto.key_chain), ("C03.enccast", codec.encoder_casts)])
 
 prop("C17", "proof",
      "Abstract interpretation (`num`): the type invariant pos <= MAX_SIZE of Buffer is assumed at every read of pos and proved at "
@@ -287,7 +287,7 @@ prop("C17", "proof",
      "no Result of a push is dropped; send only across push_pdu's Ok edge; OutOfBuffer -> SnmpEncodeError; length-form table."
      " Added in round 5: OutOfBuffer is raised by the buffer alone (no size estimate refuses a request).",
      [("C17.sites", numrules.c17_sites), ("C17.owner", crypto.buffer_owner), ("C17.err", crypto.buffer_err), ("C17.send", crypto.fresh_buffers),
-      ("C17.len", codec.length_forms), ("C17.exc", only(c07.exc_table, "OutOfBuffer")), ("C17.priv-fresh", crypto.priv_fresh), ("C17.nested", crypto.nested_lengths), ("C17.handlen", crypto.hand_lengths), ("C17.padconst", crypto.pad_constants), ("C17.oob", crypto.out_of_buffer_owner)])
+      ("C17.len", codec.length_forms), ("C17.exc", only(c07.exc_table, "OutOfBuffer")), ("C17.priv-fresh", crypto.priv_fresh), ("C17.nested", crypto.nested_lengths), ("C17.handlen", crypto.hand_lengths), ("C17.padconst", crypto.pad_constants), ("C17.oob", crypto.out_of_buffer_owner), ("C17.privlayout", only(crypto.priv_layout, "decrypt"))])
 
 prop("C09", "other",
      "HMAC byte equality is NOT decided. Decided: in v3 push_pdu sign runs on every Ok path of an authenticated session with no "
@@ -299,7 +299,7 @@ prop("C09", "other",
      "engine id / keys consistency rules of C13."
      " Added in round 5: the Python key classes store the key bytes as given (only aligned, never rewritten).",
      [("C09.order", crypto.sign_order), ("C09.const", crypto.hmac_consts), ("C09.shape", crypto.hmac_shape), ("C09.flag", v3.cred),
-      ("C09.keys", v3.keys), ("C09.adopt", v3.adopt), ("C09.accept", c04.accept), ("C09.msgflags", crypto.msg_flags), ("C09.dispatch", only(crypto.key_dispatch, "auth::", "AuthKey")), ("C09.chain", crypto.key_chain), ("C09.py", py.refresh_flow), ("C09.user", only(crypto.key_ffi, "user."))])
+      ("C09.keys", v3.keys), ("C09.adopt", v3.adopt), ("C09.accept", c04.accept), ("C09.msgflags", crypto.msg_flags), ("C09.dispatch", only(crypto.key_dispatch, "auth::", "AuthKey")), ("C09.chain", crypto.key_chain), ("C09.py", py.refresh_flow), ("C09.user", only(crypto.key_ffi, "user.")), ("C09.errprop", py.errors_propagate)])
 
 prop("C11", "other",
      "Ciphertext correctness is NOT decided. Decided: both ciphers reset their private buffer before every use (history "
@@ -321,7 +321,7 @@ prop("C12", "other",
      "engine id, key; password_to_master feeds exactly MEGABYTE/len whole copies and then password[..MEGABYTE%len]; the privacy key "
      "is localised with the auth digest, the session engine id and its own key-type bits (new and set_keys).",
      [("C12.refuse", numrules.c12_refuse), ("C12.dispatch", crypto.key_dispatch), ("C12.ffi", crypto.key_ffi), ("C12.chain", crypto.key_chain),
-      ("C12.keys", v3.keys), ("C12.const", crypto.hmac_consts), ("C12.sizes", only(crypto.key_size_guards, "util::"))])
+      ("C12.keys", v3.keys), ("C12.const", crypto.hmac_consts), ("C12.sizes", only(crypto.key_size_guards, "util::")), ("C12.py", py.refresh_flow), ("C12.keycls", py.key_classes)])
 
 prop("C14", "other",
      "Given the rules, uniqueness follows (+1 mod 2^w is injective over fewer than 2^w steps): salt_value is written only at key "
@@ -329,4 +329,4 @@ prop("C14", "other",
      "encrypt lies between copying the salt into the message and advancing the counter; the transmitted parameters are 8 octets "
      "([u8; 8] / [u8; 16][8..]); flag_priv, the Encrypted/Plaintext choice and the encrypt call are governed by the same "
      "has_priv() and Encrypted carries encrypt()'s output. NOT decided: absence of plaintext octet runs in the ciphertext.",
-     [("C14.counter", crypto.salt_counter), ("C14.flag", v3.priv_choice), ("C14.cred", v3.cred), ("C14.layout", crypto.priv_layout), ("C14.msgflags", crypto.msg_flags), ("C14.py", py.refresh_flow), ("C14.user", only(crypto.key_ffi, "User.__init__")), ("C14.keys", v3.keys), ("C14.dispatch", only(crypto.key_dispatch, "privacy::"))])
+     [("C14.counter", crypto.salt_counter), ("C14.flag", v3.priv_choice), ("C14.cred", v3.cred), ("C14.layout", crypto.priv_layout), ("C14.msgflags", crypto.msg_flags), ("C14.py", py.refresh_flow), ("C14.user", only(crypto.key_ffi, "User.__init__")), ("C14.keys", v3.keys), ("C14.dispatch", only(crypto.key_dispatch, "privacy::")), ("C14.keycls", py.key_classes)])
